@@ -364,3 +364,50 @@ func objOfIdentOrSel(info *types.Info, e ast.Expr) types.Object {
 	}
 	return nil
 }
+
+// callbackFunc resolves a callback argument to the repository function or literal that will run: a literal, a named
+// function, a local bound to a literal, or a call of a factory whose body is `return func(...){...}`. For factories
+// the second result maps the factory's parameters to the argument expressions of the call.
+func (c *Ctx) callbackFunc(f *FuncInfo, e ast.Expr) (*FuncInfo, map[types.Object]ast.Expr) {
+	info := f.Pkg.TypesInfo
+	e = ast.Unparen(e)
+	switch x := e.(type) {
+	case *ast.FuncLit:
+		return c.byLit[x], nil
+	case *ast.CallExpr:
+		fn, ok := calleeObj(info, x).(*types.Func)
+		if !ok || c.byObj[fn] == nil {
+			return nil, nil
+		}
+		g := c.byObj[fn]
+		if len(g.Body().List) != 1 {
+			return nil, nil
+		}
+		ret, ok := g.Body().List[0].(*ast.ReturnStmt)
+		if !ok || len(ret.Results) != 1 {
+			return nil, nil
+		}
+		lit, ok := ast.Unparen(ret.Results[0]).(*ast.FuncLit)
+		if !ok {
+			return nil, nil
+		}
+		bind := map[types.Object]ast.Expr{}
+		i := 0
+		for _, fl := range g.Type().Params.List {
+			for _, id := range fl.Names {
+				if i < len(x.Args) {
+					bind[g.Pkg.TypesInfo.Defs[id]] = x.Args[i]
+				}
+				i++
+			}
+		}
+		return c.byLit[lit], bind
+	}
+	if fn, ok := objOfIdentOrSel(info, e).(*types.Func); ok {
+		return c.byObj[fn], nil
+	}
+	if v, ok := objOfIdent(info, e).(*types.Var); ok {
+		return c.litOfVar[v], nil
+	}
+	return nil, nil
+}
